@@ -14,7 +14,7 @@ func init() { register("C14", propC14) }
 func v(n string) aff { return affVar(n) }
 
 func propC14(c *Ctx) {
-	c.Explanation = "Decides, for ALL 32-bit operands, that each primitive of pkg/seqnum computes the serial-number-arithmetic definition in the property: every function body is abstractly evaluated (loop-free path enumeration, affine terms mod 2^32, signed tests rewritten to unsigned intervals, callees substituted) into a predicate normal form which is compared exactly - over the finite partition induced by the interval end points - with the definition written in the same normal form; a mismatch is reported with the interval of distances on which code and definition differ. Additionally a type-resolved lint shows that the TCP/stack/header packages never order seqnum.Value operands with raw < <= > >= (so all ordering goes through the decided primitives) and that the out-of-order heap orders by LessThan. S2 also flags a seqnum.Value converted to any plain integer type and then ordered. NOT decided: the consequence clause (that every TCP property holds at wrap-adjacent initial sequence numbers) beyond this necessary condition; Overlap is decided against its definition-by-composition, which coincides with 'the windows share a sequence number' only for window sizes < 2^31 (pen-and-paper lemma, see DESIGN.md)."
+	c.Explanation = "Decides, for ALL 32-bit operands, that each primitive of pkg/seqnum computes the serial-number-arithmetic definition in the property: every function body is abstractly evaluated (loop-free path enumeration, affine terms mod 2^32, signed tests rewritten to unsigned intervals, callees substituted) into a predicate normal form which is compared exactly - over the finite partition induced by the interval end points - with the definition written in the same normal form; a mismatch is reported with the interval of distances on which code and definition differ. Additionally a type-resolved lint shows that the TCP/stack/header packages never order seqnum.Value operands with raw < <= > >= (so all ordering goes through the decided primitives) and that the out-of-order heap orders by LessThan. S2 also flags a seqnum.Value converted to any plain integer type and then ordered. (S4) sequence-typed sender/receiver state is initialised from iss/irs. NOT decided: the consequence clause (that every TCP property holds at wrap-adjacent initial sequence numbers) beyond this necessary condition; Overlap is decided against its definition-by-composition, which coincides with 'the windows share a sequence number' only for window sizes < 2^31 (pen-and-paper lemma, see DESIGN.md)."
 	c.Assumptions = []string{
 		"Go semantics of uint32/int32 arithmetic and conversions as modelled by the affine32 evaluator",
 		"Overlap's definition-by-composition equals window intersection for sizes < 2^31 (TCP windows are <= 2^30)",
@@ -23,6 +23,36 @@ func propC14(c *Ctx) {
 	seqnumPrimitives(c, S1, nil)
 	S2 := c.Rule("S2", "lint", "no raw ordering comparison / widening of seqnum.Value in tcp, header, stack", 1)
 	S3 := c.Rule("S3", "K5", "segmentHeap.Less orders by sequenceNumber.LessThan", 1)
+	// S4: sequence space has no origin. Every sequence-typed variable of the
+	// sender and the receiver that later takes part in an ordering test is
+	// initialised relative to the connection's own initial sequence numbers;
+	// one left at its zero value (or set to a constant) makes the tests depend on
+	// where in the 32-bit space the connection happens to start.
+	S4 := c.Rule("S4", "K5 def-use in the constructors", "sequence-typed sender/receiver state starts relative to iss/irs, never at an absolute value", 8)
+	for _, t := range []struct {
+		fn     string
+		fields map[string]string // field -> parameter it must derive from
+	}{
+		{"tcp.newSender", map[string]string{"tcp.sender.sndUna": "$1", "tcp.sender.sndNxt": "$1", "tcp.sender.sndNxtList": "$1", "tcp.sender.rttMeasureSeqNum": "$1", "tcp.sender.maxSentAck": "$2", "tcp.fastRecovery.last": "$1"}},
+		{"tcp.newReceiver", map[string]string{"tcp.receiver.rcvNxt": "$1", "tcp.receiver.rcvAcc": "$1"}},
+	} {
+		fn := c.Fn(S4, t.fn)
+		if fn == nil {
+			continue
+		}
+		seen := map[string]string{}
+		for _, st := range Sites(fn) {
+			if st.Kind == "store" && len(st.Args) == 2 {
+				if _, want := t.fields[st.Target]; want {
+					seen[st.Target] = st.Args[1]
+				}
+			}
+		}
+		for f, par := range t.fields {
+			got, ok := seen[f]
+			c.Check(ok && strings.Contains(got, par), S4, t.fn+"/"+f, c.P.Pos(fn.Pos()), "initialised from the initial sequence number: "+got, "sequence-typed field "+f+" is not initialised from the connection's initial sequence number ("+par+") in "+t.fn+" (found: '"+got+"'): comparisons against it depend on the absolute position of the connection in sequence space")
+		}
+	}
 
 	// S2: lint over the packages that hold TCP state.
 	sites := seqLint(c, S2, []string{"protocol/transport/tcp", "protocol/header", "stack"})
